@@ -3,6 +3,7 @@ package main
 // C14: H265 parser, header accessors and payloader.
 
 import (
+	"bytes"
 	"encoding/json"
 
 	"github.com/pion/rtp/codecs"
@@ -108,23 +109,22 @@ func runC14(raw json.RawMessage, w *Writer) {
 		w.Emit(Ev{"ev": "fu8", "v": c.V, "S": f.S(), "E": f.E(), "FuType": int(f.FuType())})
 	case "payload":
 		p := &codecs.H265Payloader{AddDONL: c.Donl, SkipAggregation: c.SkipAgg}
+		// all access units of the history lie in ONE stream buffer; every call gets its window of it (see annexbStream)
+		cc := make([]c10Call, len(c.Calls))
+		for i, call := range c.Calls {
+			cc[i] = c10Call{Units: call.Units, Scs: call.Scs}
+		}
+		stream, bounds := annexbStream(cc)
+		pristine := cloneBytes(stream)
 		for k, call := range c.Calls {
-			input := []byte{}
-			for i, u := range call.Units {
-				if call.Scs[i] == 4 {
-					input = append(input, 0, 0, 0, 1)
-				} else {
-					input = append(input, 0, 0, 1)
-				}
-				input = append(input, bytesOf(u)...)
-			}
 			var frags [][]byte
-			r, _ := guard(func() { frags = p.Payload(uint16(c.Mtu), cloneBytes(input)) })
+			r, _ := guard(func() { frags = p.Payload(uint16(c.Mtu), stream[bounds[k]:bounds[k+1]]) })
+			intact := bytes.Equal(stream, pristine) // the call wrote neither into its window nor into what lies behind it
 			parsed := []Ev{}
 			for _, f := range frags {
 				parsed = append(parsed, h265Parse(f, c.Donl))
 			}
-			w.Emit(Ev{"ev": "payload", "k": k, "mtu": c.Mtu, "donl": c.Donl, "skipagg": c.SkipAgg, "units": call.Units, "res": r,
+			w.Emit(Ev{"ev": "payload", "k": k, "mtu": c.Mtu, "donl": c.Donl, "skipagg": c.SkipAgg, "units": call.Units, "res": r, "stream_intact": intact,
 				"frags": intss(frags), "parsed": parsed})
 		}
 	}
